@@ -7,6 +7,30 @@ CHECKS = {
         note="Trusted: CPython ast, Fraction arithmetic, the checker. Assumed: clip is the identity in the interior; the velocity oracle is exact (C02/C03). Not decided: observed convergence, clipping, land.",
         technique="static analysis: abstract interpretation (rational normal forms) + Butcher tableau extraction + exact order conditions",
     ),
+    "C02": dict(
+        level="other",
+        text="Decides structural necessary clauses, not numerical agreement: trilinear's node weights equal the tensor-product weights as polynomial identities (8-node stencil, partition of unity, linear precision, convexity); every sampling site indexes its array at X - (slice start + stagger) with slices and read layouts taken from the source; the level lookup interpolates -Z linearly and holds the end levels; returned velocities carry the land-mask factor built from adjacent rho-masks; packing uses the variable's own scale/offset.",
+        note="Trusted: ROMS C-grid convention (u half a cell east, v half a cell north), numpy/netCDF4 slicing semantics, CPython ast, the checker. Not decided: values on real files.",
+        technique="static analysis: abstract interpretation (rational normal forms with array-element atoms) + index-frame agreement + slice algebra",
+    ),
+    "C03": dict(
+        level="other",
+        text="Decides the hand-over algebra for every frame spacing and file layout: Forcing.__init__ and each path of Forcing.update are evaluated abstractly (frame reads opaque functions of the requested step) and the post-state of (u, u_new, dU) is compared with the inductive invariant of linear time interpolation; the file holding the requested step is selected by identity on every path to a read; steps are sorted before use; velocity(fractional_step=c) samples u + c*dU for each c the schemes use. Values on real data are not decided.",
+        note="Trusted: CPython ast, Fraction arithmetic, the checker. Assumed: frames on the step lattice; time2step exact there (C13).",
+        technique="static analysis: inductive invariant checked by abstract interpretation of each path (rational normal forms) + dominance of file selection over reads + typestate SORTED",
+    ),
+    "C10": dict(
+        level="other",
+        text="Decides time-mirror symmetry of each direction-dependent computation: TimeKeeper methods evaluated abstractly with time_reversal True equal the T-image (instants and velocities negated) of the forward evaluation; every comparison between instants in the release module sits in a time_reversal conditional with mirrored arms; tick spacing, output period and both velocity components change sign; sorted steps, file selection by identity and release-sequence alignment are reused. Equality of two complete runs is not decided.",
+        note="Trusted: the kind table (instant / step length / count / T-odd velocity), CPython ast, the checker. Reversed warm starts are outside the quantifier.",
+        technique="static analysis: sibling (time-mirror) comparison of branch arms in normal form + enumeration of unmirrored instant comparisons",
+    ),
+    "C13": dict(
+        level="other",
+        text="Decides the conversion algebra on the step lattice: the clock invariant time == step2time(step) holds at construction and is preserved by update in both directions; Nsteps = floor(|stop-start|/dt); time2step(step2time(n)) = n; step2nctime/nctime = (instant - reference)/unit; ISO letters, [value, unit] and unit_table denote the numpy unit codes of the same meaning; normalize_period returns a period or raises on every path. numpy's calendar arithmetic is trusted.",
+        note="Trusted: numpy datetime64/timedelta64 arithmetic in seconds, re._parser, CPython ast, the checker.",
+        technique="static analysis: abstract interpretation (rational normal forms with floor atoms) + regex structure via re._parser + exhaustive path enumeration (totality)",
+    ),
     "C11": dict(
         level="other",
         text="Decides the second-moment algebra and the independence structure, not the sampled distribution: with each rng.normal call replaced by a unit-variance atom the squared coefficient of the draw in the stored position equals 2*D*dt/dx^2 (2*Dz*dt), there is no constant term, U/V/W use distinct per-call draws of the current particle count, and no draw is made when both coefficients are zero.",
